@@ -579,7 +579,7 @@ func genCase(t *rapid.T) Case {
 }
 
 func TestInjector(t *testing.T) {
-	evid.Rapid(t, "injector", 15000, 200000, func(t *rapid.T) {
+	evid.Rapid(t, "injector", 15000, 400000, func(t *rapid.T) {
 		c := genCase(t)
 		evid.Run(t, "injector", c, func() evid.Outcome { return checkCase(c) })
 	})
